@@ -149,6 +149,13 @@ class ExcOf(Sort):
         self.cls = cls
 
 
+class Cls(Sort):
+    """a class object parameter (classmethods: cls)"""
+
+    def __init__(self, name):
+        self.name = name
+
+
 class Func(Sort):
     """A callable parameter (e.g. filtr). Modelled as an uninterpreted predicate."""
 
@@ -669,6 +676,8 @@ def make_symbolic(name, sort, assumptions):
         return VTuple([make_symbolic("%s_%d" % (name, k), s, assumptions) for k, s in enumerate(sort.elems)])
     if isinstance(sort, ExcOf):
         return VExc(sort.cls)
+    if isinstance(sort, Cls):
+        return VClass([sort.name])
     if isinstance(sort, Func):
         f = z3.Function(name + "!%d" % (_cnt[0] + 1), *([s.z for s in sort.argsorts] + [sort.ressort.z]))
         _cnt[0] += 1
